@@ -8,16 +8,18 @@ def _hook_commits():
     except Exception:
         return []
 
+CLAIMED_IDS = ['C01', 'C07', 'C08', 'C10']
+
 HOOKS = {
     'guard': 'cargo feature `verif` (cfg(feature = "verif"))',
     'enable': 'the harness crate /verif/harness depends on raindb with features=["verif"]; the MIR dump is taken with --features verif',
-    'baseline_off_cmd': 'cd /repo && cargo test --workspace --no-fail-fast --offline',
+    'baseline_off_cmd': 'cd /repo && (cargo nextest run --workspace --no-fail-fast --tool-config-file pb:/w/lib/nextest.toml --profile pb --test-threads 8 --offline || cargo test --workspace --no-fail-fast --offline)',
     'source_commits': _hook_commits(),
     'add_only': True,
 }
 
 ENGINES = [
-    {'name': 'engine-b-mirse', 'path': 'mirse/', 'serves_properties': ['C07'],
+    {'name': 'engine-b-mirse', 'path': 'mirse/', 'serves_properties': sorted(CLAIMED_IDS),
      'kind_free_text': 'symbolic executor over rustc MIR text dump of /repo (regenerated per run), z3 decides path feasibility and postconditions, cvc5 cross-checks a sample of final queries, counterexamples replayed natively through harness/src/bin/replay.rs'},
     {'name': 'engine-a-kani', 'path': 'harness/', 'serves_properties': [],
      'kind_free_text': 'Kani 0.68 / CBMC 6.11 proof harnesses over the compiled crate (byte-level units)'},
@@ -26,14 +28,24 @@ ENGINES = [
 B_NOTE = ('bounded model checking of the real functions (MIR of the current tree); trusted: MIR executor, std summaries, key abstraction; '
           'obligations => property is an informal argument; thread interleavings, histories and whole-database runs are outside the claim')
 
+TECH = 'symbolic execution of rustc MIR + z3 (SMT), cvc5 cross-check, native replay of counterexamples'
 CLAIMED = {
+    'C01': {'engine': 'engine-b-mirse', 'design_ref': 'DESIGN.md section 4 C01',
+            'text': 'solver-decided obligations on the read path below DB::get: binary search over a level (O1.3), files consulted by a lookup and their order (O1.4), Table::get tri-state for every lookup bound (O1.6), manifest snapshot preserves file metadata (O1.7)',
+            'note': B_NOTE, 'technique': TECH},
+    'C08': {'engine': 'engine-b-mirse', 'design_ref': 'DESIGN.md section 4 C08',
+            'text': 'solver-decided error propagation: every combination of failing steps in VersionSet::log_and_apply yields Err and no version install (O8.2)',
+            'note': B_NOTE, 'technique': TECH},
+    'C10': {'engine': 'engine-b-mirse', 'design_ref': 'DESIGN.md section 4 C10',
+            'text': 'solver-decided obligations on file metadata: hull of several files (O7.1), binary search on well-formed levels (O1.3), file comparator is a total order (O10.3)',
+            'note': B_NOTE, 'technique': TECH},
     'C07': {'engine': 'engine-b-mirse', 'design_ref': 'DESIGN.md section 4 C07',
             'text': 'solver-decided obligations on the compaction input selection: key range of several files is their hull (O7.1) for every layout within the bound',
             'note': B_NOTE, 'technique': 'symbolic execution of rustc MIR + z3 (SMT), cvc5 cross-check, native replay of counterexamples'},
 }
 
 _NOT_YET = 'obligations for this property are designed (DESIGN.md section 4) but not yet registered in this commit'
-NOT_APPLICABLE = {pid: _NOT_YET for pid in ['C01', 'C02', 'C03', 'C04', 'C05', 'C06', 'C08', 'C09', 'C10', 'C11', 'C12', 'C13', 'C14', 'C15', 'C16']}
+NOT_APPLICABLE = {pid: _NOT_YET for pid in ['C02', 'C03', 'C04', 'C05', 'C06', 'C09', 'C11', 'C12', 'C13', 'C14', 'C15', 'C16']}
 NOT_APPLICABLE['C17'] = 'the mechanism is flock(2) through the fs2 FFI on a real file descriptor plus racing threads; neither engine has a model of flock or of threads, and a contract "lock_file returns anything" decides nothing'
 
 NOTES = 'See DESIGN.md. Exit codes of ./check: 0 held (KNOWN-FINDING lines for recorded defects), 1 VIOLATION, 2 inconclusive (tool limit or non-reproducing counterexample; never reported as held).'
